@@ -155,6 +155,12 @@ def shard_long_params(args):
                     s = "a\x1b[" + ";".join(map(str, ps + tail)) + "mb\x1b[mc"
                     acc.case(True, key=s, sample=lambda: {"s": s})
                     check_string(acc, s, {"s": s})
+    # thousands of parameters in one sequence (one rotation per shard)
+    for n in (1000, 4095, 4096, 4097, 8191, 8192, 8193, 8194, 10000, 20000, 65535, 65536, 70001):
+        ps = [codes[(idx + j * 3) % len(codes)] for j in range(n)]
+        s = "a\x1b[" + ";".join(map(str, ps)) + "mb\x1b[mc"
+        acc.case(True, key=("manyparams", n, idx), sample={"parameters": n})
+        check_string(acc, s, {"parameters": n, "s": s[:80] + "..."})
     return acc.export()
 
 
